@@ -7,6 +7,7 @@ SABOTAGE = [
     ("MCArrayApi_abAxisLen.cfg", ["LenExact"]),
     ("MCArrayApi_abGetAxis.cfg", ["TableNoPanic", "NoPanic"]),
     ("MCArrayApi_abView0Dim.cfg", ["NoPanic", "YieldsExpectedPrefix", "Fused"]),
+    ("MCArrayApi_abNth.cfg", ["LenExact", "NoPanic", "YieldsExpectedPrefix"]),
 ]
 
 
@@ -14,7 +15,8 @@ def run(tier):
     rep = Report("C19", tier, "model_checking")
     rep.rule = ("TLC enumerates every shape in the bound x every object (indices iterator, frequency iterator, "
                 "axis iterator per axis, view iterator per (axis, position), probe table of get/get_axis/sum); "
-                "each behaviour is a call history (len() then next()) continued 3 calls past exhaustion and is "
+                "each behaviour is a call history (len() then next(), with up to NthBudget calls of nth(n) in any position on "
+                "small arrays) continued 3 calls past exhaustion and is "
                 "replayed call by call on sfs_core::array under catch_unwind. A case is non-trivial when the "
                 "array has more than one cell; distinct = distinct (shape, object).")
     rep.exhaustive = True
@@ -23,8 +25,8 @@ def run(tier):
         "bounds: see tlc_runs[].cfg for the shape sets",
         "TLC, the Json community module and the harness comparison code are trusted",
     ]
-    cfgs = ["MCArrayApi_quick.cfg"] if tier == "quick" else [
-        "MCArrayApi_t1.cfg", "MCArrayApi_t2.cfg", "MCArrayApi_t3.cfg"]
+    cfgs = ["MCArrayApi_quick.cfg", "MCArrayApi_zero.cfg"] if tier == "quick" else [
+        "MCArrayApi_t1.cfg", "MCArrayApi_t2.cfg", "MCArrayApi_t3.cfg", "MCArrayApi_zero.cfg"]
     for i, cfg in enumerate(cfgs):
         r = tlc_must_pass("c19_%d" % i, "MCArrayApi", cfg, workers=8, timeout=3000)
         rep.add_tlc(r)
